@@ -51,6 +51,19 @@ def deleteRule (c : Cfg F) (lang : String) (name : String) : Cfg F × Bool :=
     else (c, false)
   | none => (c, false)
 
+/-! the configuration setters of `SmartCalc` (src/smartcalc.rs): each writes its own fields and nothing else -/
+
+/-- `SmartCalc::set_decimal_seperator` -/
+def setDecimalSeparator (c : Cfg F) (s : String) : Cfg F := { c with dec := s }
+/-- `SmartCalc::set_thousand_separator` -/
+def setThousandSeparator (c : Cfg F) (s : String) : Cfg F := { c with thou := s }
+/-- `SmartCalc::set_number_configuration(decimal_digits, remove_fract_if_zero, use_fract_rounding)` -/
+def setNumberConfiguration (c : Cfg F) (f : NumFmt) : Cfg F := { c with numFmt := f }
+/-- `SmartCalc::set_percentage_configuration(..)` -/
+def setPercentageConfiguration (c : Cfg F) (f : NumFmt) : Cfg F := { c with pctFmt := f }
+/-- `SmartCalc::set_money_configuration(remove_fract_if_zero, use_fract_rounding)` -/
+def setMoneyConfiguration (c : Cfg F) (removeZero rounding : Bool) : Cfg F := { c with moneyRemoveZero := removeZero, moneyRounding := rounding }
+
 def RuleFn.isSmallDate : RuleFn F → Bool
   | .smallDate => true
   | _ => false
